@@ -326,6 +326,10 @@ func stepMPLS[T mplsB[T]](b *builder, x T, r *rand.Rand) {
 	switch r.Intn(5) {
 	case 0:
 		l := uint32(16 + r.Intn(1000))
+		if r.Intn(3) == 0 {
+			// boundary and special-purpose values: the builder emits the number it was given
+			l = []uint32{0, 1, 2, 3, 7, 13, 14, 15, 16, 1048575, 1048576, ^uint32(0)}[r.Intn(12)]
+		}
 		x.WithLabel(l)
 		b.mpls.Label = &aftpb.Afts_LabelEntryKey_LabelUint64{LabelUint64: uint64(l)}
 		log("WithLabel(%d)", l)
